@@ -144,7 +144,9 @@ fn check_damage(w: &World, pre: &format::RawArchive, cx: &Cx, f: &str, d: Dmg, n
         no_panic(&r, "restore", f, d)?;
         // Does this version still open?  (head parses, as judged independently)
         let opens = matches!(post.bands.get(id).map(|b| &b.head), Some(FileState::Ok(v)) if v.get("start_time").map(|x| x.is_i64()).unwrap_or(false))
-            && r.result.is_ok();
+            // (a restore that gives up with an error still owes the untouched files when the
+            // damaged file is a data block: no damage to a block keeps a version from opening)
+            && (r.result.is_ok() || class == FileClass::Block);
         tick("restore");
         if opens && band.head.present_nonempty() {
             let snap = tree::snapshot(&dest);
@@ -581,6 +583,50 @@ fn enumerate(_tier: Tier, idx: u32, of: u32, cx: &mut Cx) -> CaseResult {
             let mut n = 0u32;
             check_damage(&w, &pre, &cx2, &victim, Dmg::Delete, &mut n).map_err(|mut f| {
                 f.signature = format!("{}/probe-big-hunk", f.signature);
+                f
+            })?;
+            cx.add_evals(1);
+            cx.inner_nontrivial += 1;
+        }
+        crate::engine::force_remove(&sub);
+    }
+
+    // --- one combined block shared by 1100 files that are consecutive in the index, deleted:
+    // each of them is a reported failure, and however many fail in a row, the untouched files
+    // that sort after them restore exactly
+    {
+        crate::engine::heartbeat();
+        let m = crate::probes::plain_meta();
+        let mut tree = tree::Tree::empty_root(tree::Meta { mode: 0o755, ..m });
+        for d in ["/a", "/b"] {
+            tree.0.insert(d.to_string(), tree::Node { kind: tree::Kind::Dir, meta: tree::Meta { mode: 0o755, ..m } });
+        }
+        for i in 0..1100u32 {
+            tree.0.insert(format!("/a/s{i:04}"), tree::Node { kind: tree::Kind::File { pool: 2 + (i % 6) as u8, len: 20 + i % 50 }, meta: m });
+        }
+        for i in 0..5u32 {
+            tree.0.insert(format!("/b/large{i}"), tree::Node { kind: tree::Kind::File { pool: 3 + i as u8, len: 5000 + i }, meta: m });
+        }
+        let opts = crate::ops::Opts { hunk: 100_000, block: 1 << 20, cap: 100 };
+        let sub = cx.dir("many-files-one-block");
+        std::fs::create_dir_all(sub.join("r")).unwrap();
+        let cx2 = crate::engine::sub_cx(cx, sub.clone());
+        let mut w = World::new(&sub, &tree);
+        let b = ops::backup(&w.arch, &None, &w.src, opts, &[]);
+        ensure!(!ops::backup_reported_error(&b), "C10/probe-setup", "{}", b.describe());
+        w.bands.insert(0, crate::history::BandState::Complete(tree.clone()));
+        let pre = format::scan(&w.arch);
+        // the block that /a/s0000 lies in
+        let victim = pre.bands[&0]
+            .all_entries()
+            .into_iter()
+            .find(|e| e.apath == "/a/s0000")
+            .and_then(|e| e.addrs.first().map(|a| format!("d/{}/{}", &a.hash[..3], a.hash)));
+        if let Some(victim) = victim {
+            ensure!(damage::apply(&w.arch, &victim, Dmg::Delete), "C10/harness/probe", "no damage");
+            let mut n = 0u32;
+            check_damage(&w, &pre, &cx2, &victim, Dmg::Delete, &mut n).map_err(|mut f| {
+                f.signature = format!("{}/probe-many-files-one-block", f.signature);
                 f
             })?;
             cx.add_evals(1);
